@@ -13,6 +13,7 @@ def main():
     ap.add_argument("--seeds", type=int, default=2)
     ap.add_argument("--limit", type=int, default=30)
     ap.add_argument("--repeat", type=int, default=2)
+    ap.add_argument("--variants", type=int, default=0, help="per base plan (3 per profile): this many variants are added")
     a = ap.parse_args()
     jobs = []
     for prop in a.props.split(","):
@@ -21,11 +22,37 @@ def main():
             plans = list(prof.gen(1000 + s, "quick"))[: a.limit]
             for p in plans:
                 jobs.append((prop, p, dict(getattr(prof, "opts", {}), want_io=[p["enumerate_life"]] if "enumerate_life" in p else None)))
-    # add crash variants of a few plans
-    extra = []
-    first = {}
-    for (prop, p, o), r in zip(jobs, (engine.execute((p, o)) for prop, p, o in jobs[:0])):
-        pass
+    # add a sample of the variants (crash points, gate crashes, torn appends, errno and read faults, two-fault passes)
+    # of the first plans of every profile that has variants
+    ap_v = a.variants
+    if ap_v:
+        vjobs = []
+        for prop in a.props.split(","):
+            prof = PROFILES[prop]
+            if not hasattr(prof, "variants"):
+                continue
+            base = [(pr, p, o) for pr, p, o in jobs if pr == prop][:3]
+            for pr, p, o in base:
+                r = engine.execute((p, o))
+                if r["harness"]:
+                    continue
+                vs = list(prof.variants(p, r, 1000, "quick"))
+                rnd = random.Random(f"det:{prop}:{r['id']}")
+                rnd.shuffle(vs)
+                # keep every fault-carrying variant kind represented, then fill up with crash points
+                faulty = [v for v in vs if any(l.get("io_faults") or l.get("holds") for l in v["lifetimes"])]
+                for v in (faulty[: ap_v // 2] + vs)[:ap_v]:
+                    vjobs.append((prop, v, dict(getattr(prof, "opts", {}), **(v.get("opts") or {}))))
+        jobs += vjobs
+        print(f"{len(vjobs)} variant plans added")
+    from . import runner
+    seen, uniq = set(), []
+    for j in jobs:
+        pid = runner.plan_id(j[1])
+        if pid not in seen:
+            seen.add(pid)
+            uniq.append(j)
+    jobs = uniq
     print(f"{len(jobs)} plans x {a.repeat} runs")
     results = []
     for rep in range(a.repeat):
